@@ -16,10 +16,10 @@ import (
 // ---- request bodies and response variants through client and server ----
 
 type exSpec struct {
-	pkg   *gc.Pkg
-	g     *SchemaGen
-	ops   []bodyOp
-	rops  []string // operations of the response matrix
+	pkg  *gc.Pkg
+	g    *SchemaGen
+	ops  []bodyOp
+	rops []string // operations of the response matrix
 }
 
 type c01Exchange struct {
